@@ -93,6 +93,11 @@ class Lin:
                     return self.of_value(rng[3][0])
         if v[0] == "arr":
             return const(len(v[1]))
+        if t and t[0] == "mut" and t[1][0].endswith("Vec::<T, A>::resize") and len(t) > 5 and t[5]:
+            return self.of_value(t[5][0])        # after v.resize(n, x): len(v) == n
+        if t and t[0] == "mut" and (t[1][0].endswith("::index_mut") or t[1][0].endswith("::read") or t[1][0].endswith("::read_exact")
+                                    or t[1][0].endswith("::copy_from_slice")):
+            return self.len_of(t[3])             # mutation through a borrowed slice keeps its length
         if t and t[0] == "call" and len(t[2]) >= 1 and (t[1].endswith("::Deref>::deref") or t[1].endswith("AsRef::as_ref") or t[1].endswith("::as_slice")
                                                     or t[1].endswith("AsRef<T>>::as_ref") or t[1].endswith("::as_bytes")):
             # smart pointers / containers deref to the slice they own: same length
@@ -130,6 +135,41 @@ class Lin:
                 elif c[0] == "ne" and 0 in c[1]:
                     out.append(lin_add(const(1), la, -1))                      # unsigned and != 0 -> 1 - t <= 0
         return out
+
+
+def aux_facts(lin, forms):
+    """Definitional facts about atoms that are results of min / saturating_sub calls: r <= a, r <= b."""
+    out = []
+    sat = []
+    seen = set()
+    work = [a for f in forms for a in f[0]]
+    while work:
+        a = work.pop()
+        if a in seen or not isinstance(a, tuple):
+            continue
+        seen.add(a)
+        if a and a[0] == "call" and len(a) > 2:
+            nm = a[1].split("::")[-1]
+            args = [x for x in a[2] if not (isinstance(x, tuple) and x and x[0] == "targs")]
+            if nm == "min" and len(args) == 2:
+                for x in args:
+                    lx = lin.of_value(x)
+                    out.append(lin_add(atom(a), lx, -1))
+                    work.extend(lx[0])
+            if nm == "saturating_sub" and len(args) == 2:
+                lx = lin.of_value(args[0])
+                ly = lin.of_value(args[1])
+                out.append(lin_add(atom(a), lx, -1))
+                work.extend(lx[0])
+                sat.append((a, lx, ly))
+    # r = x.saturating_sub(y) with r >= 1 known  =>  r == x - y
+    base = list(forms) + out
+    for (a, lx, ly) in sat:
+        if entails(base, lin_add(const(1), atom(a), -1)):
+            diff = lin_add(lx, ly, -1)
+            out.append(lin_add(atom(a), diff, -1))
+            out.append(lin_add(diff, atom(a), -1))
+    return out
 
 
 def entails(facts, q, max_k=3):
